@@ -91,6 +91,41 @@ class Gen:
         return {"cls": c, "kw": kw}
 
 
+    def focus_tree(self, c, member, others="none"):
+        """tree of class c in which `member` is populated and (others="none") as little else as the types allow"""
+        T = self.T
+        rng = self.rng
+        kw = []
+        bas = {b["py"]: b for b in T.bld_attrs(c)}
+        for ea in T.exp_attrs(c):
+            default = T.default_of_chain(c, ea["py"])
+            if ea["py"] == member or others == "all":
+                v = self.attr_value(c, dict(ea, guard=None), bas.get(ea["py"]), True)
+                # a value different from the default so that the guard lets it through
+                kw.append([ea["py"], v])
+            elif default is None and ea["guard"] is None:
+                kw.append([ea["py"], None])
+        bks = {b["py"]: b for b in T.bld_kids(c)}
+        for ek in T.exp_kids(c):
+            b = bks.get(ek["py"])
+            if (ek["py"] != member and others != "all") or ek["kind"] == "any":
+                continue
+            cls = b["cls"] if b and b.get("cls") else None
+            if cls is None:
+                # the builder has no branch for it: take the class from the member spec
+                for k in T.chain(c):
+                    for ms in T.C[k]["mspecs"]:
+                        if ms["name"] == ek["py"] and ms["type"] in T.C:
+                            cls = ms["type"]
+            if ek["kind"] == "text":
+                kw.append([ek["py"], {"s": "text " + rstr(rng, TEXT_ALPHABET, 6)}])
+            elif ek["kind"] == "obj" and cls:
+                kw.append([ek["py"], {"o": self.tree(cls, 0, True)}])
+            elif ek["kind"] == "objlist" and cls:
+                kw.append([ek["py"], {"l": [self.tree(cls, 0, True), self.tree(cls, 0, False)]}])
+        return {"cls": c, "kw": kw}
+
+
 # ---------------------------------------------------------------------------- Coq emitters
 def cval(v):
     if v is None:
